@@ -252,7 +252,7 @@ fn replay(path: &str, worker: bool) -> i32 {
             "c05-variant" | "c05-collision" | "c05-reached" => props::c05::replay(r),
             "c12-string" => props::c12::replay(r),
             "c17-string" => props::c17::replay(r),
-            "e3-word" | "e3-interrupted" => props::e3::replay(&prop, r),
+            "e3-word" | "e3-interrupted" | "e3-selfplay" => props::e3::replay(&prop, r),
             "c08-tiny" => props::c08::replay(r),
             "c07-stop" => props::c07::replay(r),
             "c09-root" => props::c09::replay(r),
